@@ -329,8 +329,10 @@ def rule_D1(text):
     def rep(m):
         nonlocal n
         n += 1
-        return 'for %s in 0..%s.len() {\n let %s = &%s[%s];' % (m.group(1), m.group(3), m.group(2), m.group(3), m.group(1))
-    rx = re.compile(r'for \((\w+), (\w+)\) in ([\w\.]+)\.iter\(\)\.enumerate\(\) \{')
+        if m.group(2):   # pattern `&X` on a slice of Copy values: X = E[I]
+            return 'for %s in 0..%s.len() {\n let %s = %s[%s];' % (m.group(1), m.group(4), m.group(3), m.group(4), m.group(1))
+        return 'for %s in 0..%s.len() {\n let %s = &%s[%s];' % (m.group(1), m.group(4), m.group(3), m.group(4), m.group(1))
+    rx = re.compile(r'for \((\w+), (&?)(\w+)\) in ([\w\.]+)\.iter\(\)\.enumerate\(\) \{')
     return rx.sub(rep, text), n
 
 
